@@ -121,6 +121,19 @@ def audit_descends(prog, c: ClassInfo, f: FuncInfo) -> tuple[bool, str]:
     return True, 'children audited on every path; their findings are returned'
 
 
+def _stale_loop_variables(f, every: bool = False):
+    """(loop, names) for the for-loops of f whose variables are read after the loop without being assigned again"""
+    out = []
+    for lp in [n for n in walk_no_nested(f.node) if isinstance(n, ast.For)]:
+        inside = {id(x) for x in ast.walk(lp)}
+        tvars = {x.id for x in ast.walk(lp.target) if isinstance(x, ast.Name)} - {'_'}
+        restored = {x.id for x in walk_no_nested(f.node) if isinstance(x, ast.Name) and isinstance(x.ctx, ast.Store) and id(x) not in inside and seq(x) > seq(lp)}
+        stale = sorted({x.id for x in walk_no_nested(f.node) if isinstance(x, ast.Name) and isinstance(x.ctx, ast.Load) and x.id in tvars and id(x) not in inside and seq(x) > seq(lp) and x.id not in restored})
+        if stale or every:
+            out.append((lp, stale))
+    return out
+
+
 def run(ctx: Ctx) -> None:
     prog = ctx.prog
     ctx.rule('C12.R1', 'audit descent: every override of audit in the expression hierarchy reaches, on every normal path, the audit of every child (loop over the '
@@ -249,7 +262,13 @@ for _V in self.formulas.values():
         ca = cfg_of(au.node)
         rz = [n for n in walk_no_nested(au.node) if isinstance(n, ast.If) and unparse(n.test) == errs and any(isinstance(x, ast.Raise) and 'BiogemeError' in unparse(x) for x in n.body)]
         ok = ok and len(rz) == 1 and ca.must_pass(ca.node_of(loops[0]), {ca.node_of(rz[0])})
-    ctx.add('C12.R3', 'BIOGEME._audit', ok, au, 'every formula is tested for misplaced draws and random variables and audited; any finding raises BiogemeError' if ok else '_audit no longer covers every formula or no longer raises', 'audit')
+    stale_au = [(lp, st_) for lp, st_ in _stale_loop_variables(au) if unparse(lp.iter).startswith('self.formulas')]
+    if not ok and stale_au:
+        lp, st_ = stale_au[0]
+        ctx.add('C12.R3', 'BIOGEME._audit', False, (au.file, lp.lineno), f'{", ".join(st_)} (variable of the loop over {unparse(lp.iter)}) is read after the loop has ended: the statements that follow the loop examine the last '
+                'formula only, so a fault in any other formula of the dictionary is not reported by the audit', 'stale', positive=True)
+    else:
+        ctx.add('C12.R3', 'BIOGEME._audit', ok, au, 'every formula is tested for misplaced draws and random variables and audited; any finding raises BiogemeError' if ok else '_audit no longer covers every formula or no longer raises', 'audit')
     sim = B.methods['simulate']
     cs = cfg_of(sim.node)
     loops = [n for n in walk_no_nested(sim.node) if isinstance(n, ast.For) and unparse(n.iter) == 'self.formulas.values()' and '.audit(' in unparse(n)]
@@ -345,11 +364,7 @@ if not _OK:
         for f in c.methods.values():
             if not f.name.startswith('check_'):
                 continue
-            for lp in [n for n in walk_no_nested(f.node) if isinstance(n, ast.For)]:
-                inside = {id(x) for x in ast.walk(lp)}
-                tvars = {x.id for x in ast.walk(lp.target) if isinstance(x, ast.Name)} - {'_'}
-                restored = {x.id for x in walk_no_nested(f.node) if isinstance(x, ast.Name) and isinstance(x.ctx, ast.Store) and id(x) not in inside and seq(x) > seq(lp)}
-                stale = sorted({x.id for x in walk_no_nested(f.node) if isinstance(x, ast.Name) and isinstance(x.ctx, ast.Load) and x.id in tvars and id(x) not in inside and seq(x) > seq(lp) and x.id not in restored})
+            for lp, stale in _stale_loop_variables(f, every=True):
                 ctx.add('C12.R5', f'{c.name}.{f.name}:loop-variables@{unparse(lp.target)}', not stale, (f.file, lp.lineno),
                         'the variables of the loop are used inside it only' if not stale else f'{", ".join(stale)} (variable of the loop over {unparse(lp.iter)[:40]}) is read after the loop has ended: what follows examines the last element only, not every element', 'stale')
     cp = prog.func('nests', 'NestsForNestedLogit.check_partition')
@@ -370,7 +385,22 @@ for _I, _N in enumerate(self.tuple_of_nests):
                 ___
                 return (False, __MSG)
 """)
-    ctx.add('C12.R5', 'NestsForNestedLogit.check_intersection', ok, ci_, 'every ordered pair of distinct nests is intersected' if ok else 'check_intersection no longer compares all pairs', 'pairs')
+    if not ok:
+        # the same test over every unordered pair
+        for it in ('itertools.combinations(self.tuple_of_nests, 2)', 'combinations(self.tuple_of_nests, 2)', 'itertools.permutations(self.tuple_of_nests, 2)', 'permutations(self.tuple_of_nests, 2)'):
+            ok = ok or has(ci_.node, f"""
+for _N, _O in {it}:
+    _X = _N.intersection(_O)
+    if _X:
+        ___
+        return (False, __MSG)
+""")
+    adjacent = [unparse(lp.iter) for lp in walk_no_nested(ci_.node) if isinstance(lp, ast.For) and re.fullmatch(r'(itertools\.)?pairwise\(self\.tuple_of_nests\)|zip\(self\.tuple_of_nests(\[:-1\])?, self\.tuple_of_nests\[1:\]\)', unparse(lp.iter))]
+    if not ok and adjacent:
+        ctx.add('C12.R5', 'NestsForNestedLogit.check_intersection', False, ci_, f'the nests are intersected over {adjacent[0]}, i.e. each nest with the next one only: an alternative shared by two nests that are not neighbours in the '
+                'tuple (the first and the third, say) is not detected and the overlapping nests are accepted', 'pairs', positive=True)
+    else:
+        ctx.add('C12.R5', 'NestsForNestedLogit.check_intersection', ok, ci_, 'every ordered pair of distinct nests is intersected' if ok else 'check_intersection no longer compares all pairs', 'pairs')
     ni = prog.func('nests', 'Nests.__init__')
     ok = has(ni.node, """
 _INV = self.mev_alternatives - set(self.choice_set)
